@@ -33,7 +33,7 @@ RULE = ('histories of 4-14 (quick) / 5-40 (thorough) simulated commands (put, re
 ASSUMPTIONS = ['file names in histories are valid UTF-8 (the non-UTF-8 case belongs to C16/C19)',
                'no populated insecure .Trash/$uid in these worlds (C08 covers them)',
                'entries of the home trash carry absolute Paths (relative ones belong to C20)']
-PROBES = ['put-added', 'restore-removed', 'rm-removed', 'empty-removed', 'foreign-added', 'list-nonempty',
+PROBES = ['trash-dir-with-hundreds-of-entries', 'put-added', 'restore-removed', 'rm-removed', 'empty-removed', 'foreign-added', 'list-nonempty',
           'restored-then-trashed-again', 'volume-entry', 'boundary-ambiguous']
 TECHNIQUE = 'deterministic simulation of command histories against an executable bag model (refinement check after every step)'
 LEVEL_TEXT = ('seeded histories of the five real commands on a simulated multi-volume world; after each step an independent '
@@ -49,8 +49,14 @@ def gen(rng):
     home, uid, env = L['home'], L['uid'], dict(L['env'])
     pool = G.pick_names(rng, 6, allow_invalid=False, trouble=0.3)
     user = []      # (dir, name)
-    for vol, wd in sorted(L['work'].items()):
-        aux = home + '/aux' if vol == '/' else vol + '/aux'
+    works = dict(L['work'])
+    if L['home_mode'] != 'root' and rng.random() < 0.5:
+        # the home directory is on a volume of its own: files of the root file system (/srv/...) are trashed into /.Trash-$uid or
+        # /.Trash/$uid, the top-directory trash of the volume mounted at /
+        works['/ (root volume)'] = '/srv/data'
+        steps.append(['d', '/srv/data', 0o755])
+    for vol, wd in sorted(works.items()):
+        aux = home + '/aux' if vol.startswith('/ ') or vol == '/' else vol + '/aux'
         steps.append(['d', wd + '/sub', 0o755])
         steps.append(['d', wd + '/sub/deeper', 0o755])
         for d in (wd, wd + '/sub', wd + '/sub/deeper'):
@@ -58,9 +64,18 @@ def gen(rng):
                 G.make_entry(rng, d + '/' + nm, rng.choice(['file', 'file', 'empty', 'dir', 'link_file', 'link_dangling', 'emptydir']), steps, aux)
                 user.append((d, nm))
     start = _dt.datetime(2024, rng.randint(1, 12), rng.randint(1, 28), rng.randint(0, 23), rng.randint(0, 59), rng.randint(0, 59), rng.randrange(10**6))
-    TG.populate(rng, L, steps, names=pool, now=start, only_usable=True, kinds=('file', 'file', 'dir', 'link', 'none'))
+    TG.populate(rng, L, steps, names=pool, now=start, only_usable=True, kinds=('file', 'file', 'dir', 'link', 'none'), bulk=0.003)
     dirs = ['/', home, home + '/w', home + '/w/sub'] + [L['work'][v] for v in L['vols']] + list(L['vols'])
     procs = []
+    tdopts = []
+    if L['vols'] and rng.random() < 0.1:
+        # some puts name the trash directory themselves: the .Trash-$uid of a volume, spelled directly or through a symlink in
+        # the home directory.  What lands there is listed (by the plain commands, which find the directory by scanning the
+        # volumes) with its real original path
+        v_ = rng.choice(L['vols'])
+        steps.append(['d', v_ + '/.Trash-%d' % uid, 0o700])
+        steps.append(['l', home + '/tdlink', v_ + '/.Trash-%d' % uid])
+        tdopts = [(v_, ['--trash-dir', rng.choice([home + '/tdlink', home + '/tdlink', v_ + '/.Trash-%d' % uid])])]
     for _k in range(rng.randint(4, 14) if TIER == 'quick' else rng.randint(5, 40)):
         r = rng.random()
         adv = rng.choice([0, 0, 1, 2, 59, 3600, 86400, 86400 * 3, 86400 * 40, -5])
@@ -70,7 +85,13 @@ def gen(rng):
             for d, nm in rng.sample(user, min(len(user), rng.choice([1, 1, 2, 3]))):
                 p = d + '/' + nm
                 args.append(p if rng.random() < 0.6 else posixpath.relpath(p, cwd))
-            procs.append({'argv': ['trash-put', '--'] + args, 'env': env, 'cwd': cwd, 'uid': uid, 'advance': adv})
+            opt = []
+            if tdopts and rng.random() < 0.5:
+                v_, opt = tdopts[0]
+                onvol = [(d, nm) for d, nm in user if d == v_ or d.startswith(v_ + '/')]
+                if onvol:
+                    args = [d + '/' + nm for d, nm in rng.sample(onvol, min(len(onvol), rng.choice([1, 2])))]
+            procs.append({'argv': ['trash-put'] + opt + ['--'] + args, 'env': env, 'cwd': cwd, 'uid': uid, 'advance': adv})
         elif r < 0.60:
             cwd = rng.choice(dirs)
             argv = ['trash-restore']
@@ -134,6 +155,8 @@ def check(sim, case, st):
             env, uid = {}, 1000
     res = []
     snap0 = sim.snap()
+    if len(case['world']['steps']) > 400:
+        st.probes['trash-dir-with-hundreds-of-entries'] += 1
     bag0 = OR.scan(sim, snap0, env, uid, mounts)
     trail = []
     changes = 0
